@@ -45,11 +45,12 @@ def times_after_data(fx):
     obs = ro.never_after(fx, {SET_TIMES}, DATA_WRITERS - {IOCTL}, "R-ORDER",
                          "a data write after futimens would change mtime", crates=("libxcp", "libfs"))
     # today no function performs both; the instance that matters is finalise_copy: state it explicitly
-    f = fx.fn(FINALISE)
+    import views
+    f = views.drop_view(fx)
     if f is None:
-        return obs + [anchor_ob("R-ORDER", FINALISE)]
+        return obs + [anchor_ob("R-ORDER", DROP)]
     pw = ro.performers(fx, f, DATA_WRITERS - {IOCTL})
-    obs.append(Ob("R-ORDER", mkkey("R-ORDER", FINALISE, "no-data-writer", 0), not pw, f.loc(), FINALISE,
+    obs.append(Ob("R-ORDER", mkkey("R-ORDER", "handle-drop", "no-data-writer", 0), not pw, f.loc(), DROP,
                   "finalisation performs no data write (found %d)" % len(pw),
                   dict(writers=[q.loc_of(t) for _, t, _ in pw]) if pw else None))
     return obs
@@ -96,12 +97,16 @@ def ownership_facts(fx):
     * libxcp never duplicates or exports the descriptors (try_clone / raw fd / as_fd);
     * closures handed to the pool capture the Arc<CopyHandle> by value."""
     obs = []
-    obs += ro.callers_within(fx, FINALISE, {DROP}, "R-WHO", "finalisation only when the handle is dropped")
+    import views
+    dv = views.drop_view(fx)
+    if dv is None:
+        obs.append(anchor_ob("R-WHO", DROP))
     for h in ("libfs::common::copy_permissions", "libfs::common::copy_timestamps", "libfs::common::copy_owner",
               "libfs::common::sync"):
-        obs += ro.callers_within(fx, h, {FINALISE}, "R-WHO", "metadata/fsync helpers only inside the finalisation")
-    if not q.callgraph(fx).callers.get(FINALISE):
-        obs.append(anchor_ob("R-WHO", "finalise_copy has no caller"))
+        # allowed context: the Drop impl of the handle, or a private helper all of whose call sites are
+        obs += ro.callers_within(fx, h, {DROP}, "R-WHO", "metadata/fsync helpers run only when the handle is dropped")
+        if dv is not None and not ro.performers(fx, dv, h):
+            obs.append(anchor_ob("R-WHO", "dropping the handle performs %s" % h.split("::")[-1]))
     clone = [i for i in fx.impls if i["trait"] == "core::clone::Clone" and i["self_ty"] == COPYHANDLE]
     obs.append(Ob("R-WHO", mkkey("R-WHO", COPYHANDLE, "impl Clone", 0), not clone, "", COPYHANDLE,
                   "CopyHandle implements Clone: %s" % bool(clone), dict(impls=clone) if clone else None))
@@ -117,13 +122,10 @@ def ownership_facts(fx):
             for s in b["stmts"]:
                 rv = s["rv"]
                 if rv["k"] == "agg" and rv.get("adt") == COPYHANDLE:
-                    ok = f.path == NEW
-                    obs.append(Ob("R-WHO", mkkey("R-WHO", f.path, "construct CopyHandle", n), ok,
-                                  "%s:%d" % (s["span"]["file"], s["span"]["line"]), f.path,
-                                  "CopyHandle built in %s" % f.path, None if ok else dict(allowed=NEW)))
                     n += 1
     if n == 0:
         obs.append(anchor_ob("R-WHO", "no CopyHandle aggregate"))
+    # (where handles are built, and that they are opened/truncated and sized first: p_kinds.truncate_then_size)
     dup = {"std::fs::File::try_clone", "std::os::fd::raw::AsRawFd::as_raw_fd", "std::os::fd::raw::IntoRawFd::into_raw_fd",
            "std::os::fd::owned::AsFd::as_fd", "std::os::fd::raw::FromRawFd::from_raw_fd",
            "core::convert::Into::into|OwnedFd"}
@@ -183,4 +185,5 @@ def c18(ctx):
     ctx.add([o for o in p_gate.helpers_always_apply(fx) if "::sync|" in o.key])
     # an earlier finalisation step that fails skips the fsync: that failure must fail the run, not be tolerated
     import r_err
-    ctx.add([o for o in r_err.run(fx, crates=("libxcp",)) if o.fn in (FINALISE, DROP)])
+    members = set(x for x in q.callgraph(fx).reach(DROP) if x in fx.fns) | {DROP}
+    ctx.add([o for o in r_err.run(fx, crates=("libxcp",)) if o.fn in members])
